@@ -1579,6 +1579,14 @@ func (c *Cluster) loadPIDsLog(fsys fs, dir string) error {
 	entries, validBytes := readEntries(raw)
 	if validBytes < len(raw) {
 		c.cfg.logger.Logf(LogLevelWarn, "pids.log: discarding %d corrupt trailing bytes", len(raw)-validBytes)
+		// Cut the torn tail off: the log is reopened with O_APPEND, and
+		// entries appended after a partial entry are unreadable.
+		if f, err := fsys.OpenFile(filepath.Join(dir, "pids.log"), os.O_WRONLY, 0o644); err == nil {
+			if err := f.Truncate(int64(validBytes)); err == nil {
+				c.pidsLogSize.Store(int64(validBytes))
+			}
+			f.Close()
+		}
 	}
 	for _, e := range entries {
 		var entry pidLogEntry
@@ -1636,6 +1644,14 @@ func (c *Cluster) loadGroupsLog(fsys fs, dir string) error {
 	entries, validBytes := readEntries(raw)
 	if validBytes < len(raw) {
 		c.cfg.logger.Logf(LogLevelWarn, "groups.log: discarding %d corrupt trailing bytes", len(raw)-validBytes)
+		// Cut the torn tail off: the log is reopened with O_APPEND, and
+		// entries appended after a partial entry are unreadable.
+		if f, err := fsys.OpenFile(filepath.Join(dir, "groups.log"), os.O_WRONLY, 0o644); err == nil {
+			if err := f.Truncate(int64(validBytes)); err == nil {
+				c.groupsLogSize.Store(int64(validBytes))
+			}
+			f.Close()
+		}
 	}
 	r := replayGroupsLog(entries)
 
